@@ -90,9 +90,9 @@ def stage_replay_one(ctx, vh, vectors):
     log("replay: %d vectors replayed, %d out of domain, %d disagree (%.1fs)" % (summary["replayed"], summary["skipped"], summary["failed"], dt))
 
 
-def validate_trace(ctx, tracefile, tag):
+def validate_trace(ctx, tracefile, tag, cfg=None):
     """TLC trace validation of one ndjson file; returns (n_records, mismatches{line:expected}, skips)."""
-    t = ctx.cfg["trace"]
+    t = (cfg or ctx.cfg)["trace"]
     n = sum(1 for _ in open(tracefile))
     if n == 0:
         return 0, {}, set()
@@ -127,12 +127,12 @@ def split_file(path, per):
     return parts
 
 
-def stage_record(ctx):
-    cfg = ctx.cfg
+def stage_record(ctx, cfg=None, label=""):
+    cfg = cfg or ctx.cfg
     if "record" not in cfg or "trace" not in cfg:
         return
     n = cfg["record"][ctx.tier]
-    tf = os.path.join(ctx.wd, "trace.ndjson")
+    tf = os.path.join(ctx.wd, "trace%s.ndjson" % label)
     rc, out, dt = lib.run([lib.VH, "record", cfg.get("record_vh", ctx.pid), str(ctx.seed), str(n), ctx.tier, tf], timeout=cfg.get("record_timeout", 7200), env=ctx.env)
     if rc != 0:
         raise ToolError("vh record failed rc=%s\n%s" % (rc, out[-3000:]))
@@ -141,7 +141,7 @@ def stage_record(ctx):
     total = 0
     nsk = 0
     with concurrent.futures.ThreadPoolExecutor(max_workers=cfg.get("trace_jobs", 5)) as ex:
-        futs = {ex.submit(validate_trace, ctx, p, "%s.tr%d" % (ctx.pid, i)): p for i, p in enumerate(parts)}
+        futs = {ex.submit(validate_trace, ctx, p, "%s.tr%s%d" % (ctx.pid, label, i), cfg): p for i, p in enumerate(parts)}
         for fu in concurrent.futures.as_completed(futs):
             p = futs[fu]
             nrec, mism, skips = fu.result()
@@ -151,17 +151,19 @@ def stage_record(ctx):
             for idx, expected in sorted(mism.items()):
                 rec = json.loads(lines[idx - 1])
                 ctx.failures.append(dict(source="trace", vh=cfg.get("record_vh", ctx.pid), **{"in": rec["in"], "obs": rec["obs"], "exp": expected}))
-            if len(ctx.accepted_records) < 400:
+            if len(ctx.accepted_records) < 400 and not label:
                 for i, ln in enumerate(lines[:400]):
                     if (i + 1) not in mism and (i + 1) not in skips:
                         ctx.accepted_records.append(json.loads(ln))
-            if not ctx.trace_sampled and lines:
+            if (not ctx.trace_sampled or label) and lines and len(ctx.samples) < 4:
                 ctx.samples.append(dict(kind="recorded run (impl -> spec)", **json.loads(lines[0])))
                 ctx.trace_sampled = True
     ctx.validated += total - nsk
     ctx.skipped += nsk
-    log("trace: %d recorded runs validated by TLC, %d out of domain, %d rejected (record %.1fs, validate %.1fs)"
-        % (total - nsk, nsk, sum(1 for f in ctx.failures if f["source"] == "trace"), dt, time.time() - t0))
+    log("trace%s: %d recorded runs validated by TLC, %d out of domain, %d rejected so far (record %.1fs, validate %.1fs)"
+        % (label, total - nsk, nsk, sum(1 for f in ctx.failures if f["source"] == "trace"), dt, time.time() - t0))
+    ctx.trace_stages.append(dict(stage=label or "main", harness=cfg.get("record_vh", ctx.pid), module=cfg["trace"]["module"],
+                                 validated=total - nsk, out_of_domain=nsk))
 
 
 def stage_selftest(ctx):
@@ -260,6 +262,7 @@ def check(pid, tier, seed):
     ctx.trace_sampled = False
     ctx.accepted_records = []
     ctx.selftest = None
+    ctx.trace_stages = []
     ctx.extra = {}
     ctx.env = {"VH_BIN_DIR": lib.BIN_DIR, "VH_TIER": tier, "VH_JOBS": str(ctx.cfg.get("jobs", 8))}
     lib.build()
@@ -268,6 +271,8 @@ def check(pid, tier, seed):
         vectors = stage_mc(ctx)
         stage_replay(ctx, vectors)
         stage_record(ctx)
+        for k, more in enumerate(ctx.cfg.get("more", [])):
+            stage_record(ctx, more, ".%s" % more.get("record_vh", k))
         for extra in ctx.cfg.get("extra", []):
             getattr(P, extra)(ctx)
         with open(os.path.join(lib.BUILD, "last_failures.%s.jsonl" % pid), "w") as ff:
@@ -288,7 +293,7 @@ def check(pid, tier, seed):
                traces_validated_against_impl=ctx.replayed + ctx.validated,
                samples=ctx.samples[:4] or [dict(note="no sample")],
                vectors_replayed_spec_to_impl=ctx.replayed, recorded_runs_validated_impl_to_spec=ctx.validated,
-               out_of_domain_skipped=ctx.skipped, tlc_runs=ctx.mc_runs, selftest=ctx.selftest,
+               out_of_domain_skipped=ctx.skipped, tlc_runs=ctx.mc_runs, trace_stages=ctx.trace_stages, selftest=ctx.selftest,
                known_findings_hit=known, disagreements=len(ctx.failures),
                exhaustive=bool(ctx.cfg.get("exhaustive_note")), rule=ctx.cfg.get("rule", ""))
     cov.update(ctx.extra)
